@@ -7,24 +7,26 @@ CLAIMED = {
  'C01': dict(
     text='Theorems for ARBITRARY bytes: (1) the file face (FileFace ctor, get_table_fn, TtfUtil::GetTableInfo) hands out only slices of the file - offset + length inside the file - and reads only the 12-byte '
          'header and num_tables 16-byte entries; (2) cmap format 4 / 12 lookups never read outside the table once the subtable checks accepted; (3) the LZ4 decoder of compressed tables stays inside both '
-         'buffers and terminates; (4) bytecode the loader accepts never underflows the stack or runs off its end.  Tie B: synthetic sfnt files (table counts 0..41, offsets and lengths at / past the end, '
+         'buffers and terminates; (4) bytecode the loader accepts never underflows the stack or runs off its end; (5) the Gloc / Glat reader, the class map reader, the pass header arithmetic and the Silf table '
+         'directory and subtable headers (Face::readGraphite / Silf::readGraphite, including the directory loop that reads entry i without testing the table length) never read outside the table, and every accepted Silf header has its '
+         'attribute numbers below numAttrs, ordered pass numbers and pass slices inside the subtable.  Tie B (two-sided, the loader\'s own error codes included, for the Silf headers; per-glyph attribute values for Glat): compiled and hand-laid-out tables, valid and damaged field by field, through the real readers.  Also: synthetic sfnt files (table counts 0..41, offsets and lengths at / past the end, '
          '32-bit extremes, truncation anywhere) through the real FileFace and the extracted container model, table by table; the cmap / lz4 / VM models are tied by the C13 / C14 / C07 checks.  Oracle: the '
          'historical single-byte crashers of tests/fuzz-tests plus byte-mutated, directory-mutated and truncated copies of the shipped fonts x option bits 0..7 x {file, callbacks}: make, every gr_face_* / '
          'gr_fref_* / gr_featureval_* query, destroy, under ASan+UBSan, LeakSanitizer after every case, watchdog.',
-    note='partial: the Silf / Pass / Glat / Gloc / Sill / name parsers are not modelled; their memory safety, termination and leak freedom are decided by sanitizers on explored inputs.',
+    note='partial: the rest of the pass parser (code loading beyond the bytecode model), the name parser and the octabox reader are not modelled; their memory safety, termination and leak freedom are decided by sanitizers on explored inputs.',
     technique='Coq proof (slice containment for the container; bounds safety of cmap, lz4, bytecode loader on arbitrary bytes) over hand models + differential correspondence on FileFace + sanitizer oracle over mutated fonts',
     design='6/C01'),
  'C02': dict(
     text='Theorems over the control skeleton of the rule loop of Pass::runGraphite and the insert budget of Silf::runGraphite: (1) every run of the loop in which the measure '
          '"slots from the high-water mark to the end + remaining insert budget" never increases and decreases at each reset makes at most maxloop*(mu0+1) iterations (potential '
          'maxloop*mu+lc, induction over the observation sequence); (2) whatever is inserted and deleted, the stream never exceeds 65 slots per initial slot and a run whose end-of-pass '
-         'test succeeds leaves at most 64 (invariant n + budget <= 65*n0); (3) inserts + remaining budget = initial budget; (4) graphite2::sparse (the glyph-attribute store): whatever pairs it was built from, operator[] reads inside its array for every 16-bit key.  Tie A: sparse SIZEOF_CHUNK, MAX_SEG_GROWTH_FACTOR, maxSize initialisation, '
+         'test succeeds leaves at most 64 (invariant n + budget <= 65*n0); (3) inserts + remaining budget = initial budget; (4) graphite2::sparse (the glyph-attribute store): whatever pairs it was built from, operator[] reads inside its array for every 16-bit key; (5) the reference rule loop (cursor adjustment, high-water mark, counter, INSERT paid from budget and slot pool, DELETE, machine death) produces only accepted observation sequences, hence terminates within maxloop*(|l|+budget+1) iterations and respects the growth cap; (6) the finite state machine of a pass: the tables the loader builds from ARBITRARY pass bytes are well formed when accepted, and over well-formed tables Pass::runFSM from any slot of any glyph string indexes no table out of bounds, pushes at most MAX_SLOTS slots and accumulates at most MAX_RULES rules; (7) the recursion of Slot::finalise / floodShift is cut off 101 links deep.  Tie A: sparse SIZEOF_CHUNK, MAX_SEG_GROWTH_FACTOR, maxSize initialisation, '
          'end-of-pass test, INSERT budget test, decMax, maxRuleLoop clamp, reset condition, depth cut-offs regenerated from the source.  Tie B: hooks report every loop iteration '
          '(measure, counter, reset, cursor) and every insert/delete/pass-end; the extracted acceptors must admit each trace (this monitors the hypothesis of (1) on the real engine) and the '
          'iteration count must respect the bound; the real sparse class against the extracted model on random pair lists and keys.  Oracle: make / query-everything / destroy under ASan+UBSan+LSan with a watchdog, n_slots <= 64*n_chars, over shipped fonts x texts x '
          'encodings x dir 0..7 x features x ppm, byte-mutated fonts accepted by the real loader, and adversarial rule bytecode accepted by the real loader.',
     note='partial: memory safety / UB / leaks are decided by sanitizers on explored inputs, not proved; the loop theorem abstracts rule effects to the monitored measure instead of deriving '
-         'it from the opcode semantics; FSM, class lookup, sparse lookup and collision code are covered by the oracle only.',
+         'it from the opcode semantics for arbitrary fonts (the reference loop covers the GDL-lite subset); class lookup and collision code are covered by the oracle only.',
     technique='Coq proof (potential-function bound on the rule loop, budget invariant) + constants regenerated from source + per-iteration trace acceptance via hooks + sanitizer oracle over mutated fonts',
     design='6/C02'),
  'C03': dict(
